@@ -7,7 +7,7 @@ tag = sys.argv[1]
 props = {json.loads(l)["id"]: json.loads(l) for l in open("/verif/properties.jsonl")}
 tmpl = open("/verif/tools/seed_prompt.txt").read()
 for c in sys.argv[2:]:
-    d = f"/tmp/s5-{c}"
+    d = f"/tmp/s{tag[-1]}-{c}"
     subprocess.run(f"rm -rf {d} && mkdir -p {d} && git -C /repo archive HEAD | tar -x -C {d} && cd {d} && git init -q && git add -A && git -c user.name=x -c user.email=x@x commit -qm base", shell=True, check=True)
     earlier = []
     for m in sorted(glob.glob(f"/verif/seeded/{c}-*/meta.json")):
@@ -19,5 +19,5 @@ for c in sys.argv[2:]:
 NOTE: your "worktree" is a standalone git repository with one commit; that commit is the unchanged tree.
 Earlier bug seeders already produced the following changes for this same property. Do NOT repeat any of these mechanisms or a close variant of one (same function + same kind of mistake). Find a genuinely different way to break the property: a different function, a different clause of the property, a different kind of mistake (ordering, aliasing, stale copy, wrong key, wrong unit, off-by-one on a boundary, missing case of a switch, error swallowed, state left behind on an error path, interaction between two modules, genesis/upgrade path, query/simulation path affecting state, ...):
 """ + "\n".join(earlier) + "\n"
-    open(f"/tmp/s5-{c}.prompt", "w").write(t)
+    open(f"/tmp/s{tag[-1]}-{c}.prompt", "w").write(t)
     print(c, "ready", len(earlier), "earlier seeds listed")
